@@ -5,6 +5,7 @@
 #include <stdio.h>
 #include <string.h>
 #include <stdlib.h>
+#include <math.h>
 
 /* not declared in the public headers */
 sexp sexp_bignum_add_digits (sexp ctx, sexp dst, sexp a, sexp b);
@@ -109,7 +110,7 @@ int main(int argc, char **argv) {
   sexp_gc_var6(a, b, r, procs, ra, rb);
   sexp_gc_preserve6(ctx, a, b, r, procs, ra, rb);
   sexp_load_standard_env(ctx, NULL, SEXP_SEVEN);
-  procs = sexp_eval_string(ctx, "(vector (lambda (a b) (+ a b)) (lambda (a b) (- a b)) (lambda (a b) (quotient a b)) (lambda (a b) (remainder a b)) (lambda (a b) (* a b)))", -1, NULL);
+  procs = sexp_eval_string(ctx, "(vector (lambda (a b) (+ a b)) (lambda (a b) (- a b)) (lambda (a b) (quotient a b)) (lambda (a b) (remainder a b)) (lambda (a b) (* a b)) (lambda (a b) (= a b)) (lambda (a b) (< a b)) (lambda (a b) (> a b)) (lambda (a b) (<= a b)) (lambda (a b) (>= a b)))", -1, NULL);
   if (!sexp_vectorp(procs)) { fprintf(stderr, "cannot compile vm probes\n"); sexp_print_exception(ctx, procs, sexp_current_error_port(ctx)); return 3; }
   vmadd = sexp_vector_ref(procs, SEXP_ZERO); vmsub = sexp_vector_ref(procs, SEXP_ONE);
   vmquo = sexp_vector_ref(procs, SEXP_TWO); vmrem = sexp_vector_ref(procs, SEXP_THREE); vmmul = sexp_vector_ref(procs, SEXP_FOUR);
@@ -201,6 +202,29 @@ int main(int argc, char **argv) {
       a = mknum(ctx, f[1]); b = mknum(ctx, f[2]);
       r = sexp_compare(ctx, a, b);
       if (!sexp_fixnump(r)) printf("ERR not-a-fixnum"); else prz(sexp_unbox_fixnum(r) > 0 ? 1 : sexp_unbox_fixnum(r) < 0 ? -1 : 0);
+    } else if ((!strcmp(f[0], "x_compare") || !strncmp(f[0], "vm_cmp", 6)) && nf == 7) {
+      /* round 3: sexp_compare / the VM comparison opcodes on any pair of real operands.
+         operand: n <num> - | q <num> <den> | d <bits of a double> - | i +/- - | x - - */
+      int side;
+      for (side = 0; side < 2; side++) {
+        char **o = f + 1 + 3 * side; sexp v;
+        if (o[0][0] == 'n') v = mknum(ctx, o[1]);
+        else if (o[0][0] == 'q') { a = mknum(ctx, o[1]); b = mknum(ctx, o[2]); v = sexp_make_ratio(ctx, a, b); }
+        else if (o[0][0] == 'd') { union { double d; unsigned long long u; } cv; cv.u = strtoull(o[1], NULL, 16); v = sexp_make_flonum(ctx, cv.d); }
+        else if (o[0][0] == 'i') v = sexp_make_flonum(ctx, o[1][0] == '-' ? -INFINITY : INFINITY);
+        else v = sexp_make_flonum(ctx, NAN);
+        if (side == 0) ra = v; else rb = v;
+      }
+      if (f[0][0] == 'x') {
+        r = sexp_compare(ctx, ra, rb);
+        if (sexp_exceptionp(r)) printf(sexp_stringp(sexp_exception_message(r)) && !strcmp("can't compare NaN", sexp_string_data(sexp_exception_message(r))) ? "NAN" : "EXC");
+        else if (!sexp_fixnump(r)) printf("ERR not-a-fixnum");
+        else prz(sexp_unbox_fixnum(r) > 0 ? 1 : sexp_unbox_fixnum(r) < 0 ? -1 : 0);
+      } else {
+        r = sexp_cons(ctx, rb, SEXP_NULL); r = sexp_cons(ctx, ra, r);
+        r = sexp_apply(ctx, sexp_vector_ref(procs, sexp_make_fixnum(5 + (f[0][6] - '0'))), r);
+        printf(r == SEXP_TRUE ? "B 1" : r == SEXP_FALSE ? "B 0" : "EXC");
+      }
     } else if (!strcmp(f[0], "bignum_sqrt") && nf == 2) {
       a = mkbig(ctx, "1", f[1]);
       { sexp rem = SEXP_VOID; r = sexp_bignum_sqrt(ctx, a, &rem); prnum(r); printf(" "); prnum(rem); }
